@@ -76,8 +76,17 @@ Verdict(r) ==
       RefInit   == {Vinit(k) : k \in FdKeys}
       RefBefore == {Ob[k] : k \in FdKeys}
       nch == Len(roles)
+      (* A subshell that never takes its entry snapshot although the run completed and *)
+      (* the parent went on to its last snapshot did not start from the fork image    *)
+      (* (e.g. it was killed at once by a signal it was never sent): a violation of   *)
+      (* "on entry the subshell sees a copy of the parent's state", not a tool error  *)
+      entrymiss == {r.miss[i] : i \in {x \in 1..Len(r.miss) : Len(r.miss[x]) >= 5 /\ SubSeq(r.miss[x], 1, 5) = "entry"}}
+      parentmiss == {r.miss[i] : i \in {x \in 1..Len(r.miss) : r.miss[x] \in {"after", "before", "init"}}}
       abnormal ==
-         IF r.outcome # "completed" \/ r.miss # <<>> \/ Len(r.ch) # nch
+         IF r.outcome = "completed" /\ entrymiss # {} /\ parentmiss = {} /\ Len(r.ch) = nch
+         THEN {<<"entry", "snapshot:" \o m, "taken (the subshell starts from the fork image and runs)",
+                 "missing: the subshell ended before its first command">> : m \in entrymiss}
+         ELSE IF r.outcome # "completed" \/ r.miss # <<>> \/ Len(r.ch) # nch
          THEN {<<"abnormal", "outcome", "completed", r.outcome>>} ELSE {}
       Init0 == InitMapFor(sc.mode)
       drift0 == {<<"drift", k, Init0[k], Vinit(k)>> : k \in {x \in MK : Vinit(x) # Init0[x]}}
